@@ -162,6 +162,8 @@ def gen_star(tape):
     heavy = tape.chance("star_heavy", 0.25)
     ymax = tape.pick("star_ymax", [3, 12, 60, 300]) if heavy else tape.pick("star_ymax_light", [0, 1, 3, 8])
     edges = []
+    gaps = n_trees >= 2 and tape.chance("star_gaps", 0.3)
+    isolated = []  # (lo, hi, sample): intervals in which the sample is a root
     for k in range(n_trees):
         lo, hi = breaks[k], breaks[k + 1]
         # partition the samples among 1..n_parents parents; every used parent gets >= 2 children
@@ -173,9 +175,22 @@ def gen_star(tape):
             assign[order[2 * gi]] = p
             assign[order[2 * gi + 1]] = p
         for s in order[2 * groups:]:
+            # with gaps enabled, some samples stay isolated (roots) in this tree - missing data; a breakpoint may
+            # then only remove edges, and a sample may be re-attached after a gap
+            if gaps and tape.chance("isolated_here", 0.3):
+                isolated.append((lo, hi, s))
+                continue
             assign[s] = use[tape.choose("assign", groups)]
         for s, p in sorted(assign.items()):
             edges.append((lo, hi, p, s))
+    # every sample must be attached somewhere, otherwise the input is rejected as containing disconnected nodes
+    attached = {e[3] for e in edges}
+    for (lo, hi, s) in list(isolated):
+        if s not in attached:
+            isolated.remove((lo, hi, s))
+            p0 = [e[2] for e in edges if e[0] == lo]
+            edges.append((lo, hi, p0[0] if p0 else parents[0], s))
+            attached.add(s)
     # squash adjacent edges of the same (parent, child)
     edges.sort(key=lambda e: (e[2], e[3], e[0]))
     sq = []
@@ -205,6 +220,9 @@ def gen_star(tape):
         for m in range(y):
             pos = lo + (m % width)
             muts.append((pos, s))
+    for (lo, hi, smp) in isolated:
+        if tape.chance("mut_on_isolated_sample", 0.5):
+            muts.append((lo + tape.choose("iso_pos", int(hi - lo)), smp))  # above a sample that is a root here: no edge
     n_root_muts = tape.choose("root_muts", 3)
     for _ in range(n_root_muts):
         p = tape.pick("root_mut_parent", parents)
@@ -227,7 +245,8 @@ def gen_star(tape):
     mu = tape.pick("star_mu", [1e-3, 1.0, 1e-8, 17.0, 1e-12, 100.0])
     used = {p: tuple(v) for p, v in expected.items() if v[1] > 0}
     return ts, mu, used, {"kind": "star", "samples": n_samples, "trees": n_trees, "parents": len(used),
-                          "edges": ts.num_edges, "muts": ts.num_mutations, "ymax": ymax}
+                          "edges": ts.num_edges, "muts": ts.num_mutations, "ymax": ymax,
+                          "isolated_intervals": len(isolated)}
 
 
 def warm_up():
